@@ -70,6 +70,16 @@ def run(tier, rep):
     for rc in xs:
         if bcrun.has_jump(rc):
             rep.nontriv(rc["id"])
+    # xdis.std.findlinestarts on the host's objects, judged by the line-table reader of the host's era
+    lts = [r["lt"] for r in both if "lt" in r]
+    rej, stats = lib.judge("LineTablesTrace", "LineTablesTrace", lts, name="c20-lt")
+    rep.judged(stats, "xdis.std.findlinestarts on host objects", len(lts) - len(set(v["index"] for v in rej)))
+    for v in rej:
+        rc = lts[v["index"]]
+        sig = "C20.findlinestarts:%s" % rc["id"].split(":")[1]
+        seen[sig] = seen.get(sig, 0) + 1
+        if seen[sig] <= 2:
+            rep.reject(sig, "xdis.std.findlinestarts", {"id": rc["id"], "want": v["want"], "got": v["got"]}, {"id": rc["id"]})
     # make_std_api(v) for v != host on code of version v
     samples = bcrun.ensure_samples(90)
     files = []
